@@ -291,6 +291,11 @@ def run(tier):
     def san_key(rep, item):
         mk = item.get('mark') if isinstance(item, dict) else None
         cls = (mk or {}).get('cls') or (item.get('classes') or [None])[0]
+        if 'stratified_sfc_nnps' in rep['key']:
+            # the faulting frame names the class, whichever work item the
+            # log file got attached to (sanitizer logs are per process id,
+            # and ids are re-used within a long run)
+            cls = c01.SSFC
         if cls == c01.SSFC and 'fill_array' in rep['key']:
             return 'stratified-sfc:fill_array-reads-before-buffer'
         if cls == c01.SSFC and any(f in rep['key'] for f in (
